@@ -32,6 +32,24 @@ CLAIMED = {
         note="Trusted base: world model (decider rows: AND binds tighter than OR) + reference interpreter. Set/reset values are generated 0/1 (the statement speaks of boolean signals and comparisons).",
         ref="DESIGN.md §8 C05",
     ),
+    "C08": dict(
+        engine="factosim-exec",
+        text="Seeded exploration over layout outcomes (the flagship for fault injection): placement, memory, latch and scalar programs are compiled under every compile-side fault kind - deterministic CP-SAT at several budgets/seeds, injected UNKNOWN results for the first k or all solves, first-solution stop, perturbed-objective feasible points that spread entities, forced relay-routing failures driving the retry loop -, all pole options, optimisation on/off and several hash seeds; the emitted JSON is checked against game data: pairwise-disjoint collision boxes, every wire on existing connectors of one colour, wire length within the reach of both ends, and - against a relay-free reference build of the same program - no network of the build lies across two reference networks through pole wires.",
+        note="Trusted base: game data shipped with draftsman (collision boxes, reach), centre-to-centre wire length as the game measures it, entity order of the emitter for matching the two builds. Perturbed-objective layouts are legal feasible answers but may be unlikely for the real solver; evidence reports fired fault kinds.",
+        ref="DESIGN.md §8 C08",
+    ),
+    "C09": dict(
+        engine="factosim-exec",
+        text="Seeded exploration over layout outcomes: programs placing entities at literal / int-variable / loop-iterator / arithmetic coordinates (negative tiles, multi-tile prototypes, wired and unwired, in loops) are compiled under the C08 fault space and pole options; the multiset of (prototype, top-left tile, whitelisted static properties) of all non-compiler entities must equal the placements computed by the reference unroller.",
+        note="Trusted base: reference interpreter's loop/arith semantics, tile sizes from game data. Static properties are only compared for station, always_on, use_colors.",
+        ref="DESIGN.md §8 C09",
+    ),
+    "C18": dict(
+        engine="factosim-exec",
+        text="Seeded exploration with a twin build: programs are compiled with --power-poles T (all four types) under a fault plan and again without poles under another plan; from game data: every electric consumer intersects the supply square of a pole of type T, copper wires within reach of both ends, one electric network, no unwired pole without the option; user entities unchanged (C09 oracle) and identical settled outputs / entity conditions of both builds over a shared input history in the circuit model. Coverage and connectivity are not judged while the corresponding known findings reproduce.",
+        note="Trusted base: game data (supply_area_distance, maximum_wire_distance, energy_source), world model for the behaviour twin.",
+        ref="DESIGN.md §8 C18",
+    ),
 }
 
 NOT_YET = {}
